@@ -551,6 +551,29 @@ func c18run(args []string) error {
 				st.run(it, fmt.Sprint("nested SEQUENCE depth ", depth, " (definite)"), nest, false)
 				perFamily["nesting"] += 2
 			}
+			// overlapping nesting: at every level a SEQUENCE whose declared content is only the header of its one component,
+			// while that component claims everything that follows (a component reaching beyond its parent). Increasing depth;
+			// the walk stops at the first depth that fails, because a decoder that reads the overrun twice doubles its work
+			// with every level.
+			for _, tail := range [][]byte{{0x04, 0x00}, orig} {
+				depths := []int{1, 2, 4, 8, 12, 16, 18, 20, 22}
+				if len(tail) > 64 {
+					depths = []int{1, 2, 4, 8, 10}
+				}
+				for _, depth := range depths {
+					b := tail
+					for d := 0; d < depth; d++ {
+						ch := append([]byte{0x30}, derLen(len(b))...)
+						b = append(append(append([]byte{0x30}, derLen(len(ch))...), ch...), b...)
+					}
+					before := len(st.Fails)
+					st.run(it, fmt.Sprintf("overlapping nesting depth %d: each SEQUENCE declares only the header of a component that claims the %d-byte rest", depth, len(tail)), b, false)
+					perFamily["overlap"]++
+					if len(st.Fails) > before {
+						break
+					}
+				}
+			}
 		}
 		// empty and random strings
 		st.run(it, "empty", nil, false)
